@@ -151,6 +151,7 @@ type proxy struct {
 	next    int
 	total   atomic.Int32
 	blocked atomic.Bool
+	down    atomic.Bool // the hub behind the proxy was shut down: streams are still logged, but go nowhere (its port may belong to somebody else by now)
 	onOpen  func()
 	slow    time.Duration
 }
@@ -176,6 +177,10 @@ func newProxy(target string) *proxy {
 			// that is restarting), which must not be mistaken for a late dial
 			if p.onOpen != nil {
 				p.onOpen()
+			}
+			if p.down.Load() {
+				_ = c.Close()
+				continue
 			}
 			go func() { // the accept loop goes on at once
 				if p.slow > 0 {
@@ -645,6 +650,7 @@ func runScript(s scriptT) obsT {
 		case "Shutdown":
 			l.add(op.H, "OpShutdown", "")
 			n.h.Shutdown()
+			n.px.down.Store(true)
 			shut[op.H] = true
 			eth.mu.Lock()
 			eth.visible[other[op.H]] = false // the peer cannot see a hub that is down
